@@ -4,7 +4,7 @@
 #  baseline tests, demo with/without, then runs the given checks against it (VERIF_REPO).
 set -u
 p=$1; k=$2; shift 2
-src=/tmp/seed_$p/OUT
+src=${SEED_SRC:-/tmp/seed_$p/OUT}
 [ -d /verif/seeded/$p-$k ] && [ ! -d $src ] && src=/verif/seeded/$p-$k
 diff=$src/mut$k.diff; [ -f $diff ] || diff=$src/patch.diff
 demo=$src/demo$k.py; [ -f $demo ] || demo=$(ls $src/demo*.py | head -1)
